@@ -40,6 +40,8 @@ FUNCS = [
     ("ubxmessage.py", "UBXMessage.length"), ("ubxmessage.py", "UBXMessage.payload"),
     ("ubxmessage.py", "UBXMessage._set_attribute_bits"), ("ubxmessage.py", "UBXMessage._set_attribute_bitfield"),
     ("ubxmessage.py", "UBXMessage._set_attribute_cfgval"),
+    ("ubxhelpers.py", "key_from_val"), ("ubxhelpers.py", "msgstr2bytes"), ("ubxhelpers.py", "msgclass2bytes"),
+    ("ubxhelpers.py", "cfgname2key"),
     ("ubxmessage.py", "UBXMessage.msg_cls"), ("ubxmessage.py", "UBXMessage.msg_id"), ("ubxmessage.py", "UBXMessage.msgmode"),
 ]
 
